@@ -8,6 +8,8 @@ import OptunaVerif.Model.Basic
       stopCalled i      user code running inside future i calls `study.stop()`
       finish i r        worker thread: future i is done with result r (returned / raised class c)
       waitFirst C       main thread: `wait(futures, FIRST_COMPLETED)` returned `completed = C`
+      timeout           main thread: the clock reading at the loop head says `timeout` has elapsed
+                        (`(now - time_start).total_seconds() > timeout`): the loop will `break`
       waitAll           main thread: the final `wait(futures)` returned
       exit r            `_optimize` returned (`ok`) or raised an exception of class c
 
@@ -41,6 +43,7 @@ structure State where
   ended : Nat → Option Res := fun _ => none
   stop : Bool := false                      -- study._stop_flag
   cands : List Nat := []                    -- classes of the exceptions `f.result()` met in the main thread
+  timedOut : Bool := false                  -- the main thread has seen `timeout` elapse at its loop head
   phase : Phase := .loop
 
 def init : State := {}
@@ -51,6 +54,7 @@ inductive Event where
   | stopCalled (i : Nat)
   | finish (i : Nat) (r : Res)
   | waitFirst (c : List Nat)
+  | timeout
   | waitAll
   | exit (r : Res)
 deriving DecidableEq, Repr, Inhabited
@@ -98,8 +102,13 @@ def step (k : Nat) (n : Option Nat) (s : State) : Event → Option State
         ∧ c ≠ [] ∧ (c.all (fun i => s.futures.contains i)) = true ∧ allEnded s.ended c = true then
       some { s with futures := s.futures.filter (fun i => !c.contains i), cands := raisedOf s.ended c }
     else none
+  | .timeout =>
+    -- the clock is an input: the reading may say "elapsed" at any loop head (whether a `timeout` was
+    -- given at all is not known to this model; `PoolRun.step` enables the event only if one was)
+    if s.phase = .loop then some { s with timedOut := true } else none
   | .waitAll =>
-    if s.phase = .loop ∧ s.cands = [] ∧ (s.stop = true ∨ quotaReached n s.submitted = true)
+    if s.phase = .loop ∧ s.cands = [] ∧
+        (s.stop = true ∨ quotaReached n s.submitted = true ∨ s.timedOut = true)
         ∧ allEnded s.ended s.futures = true then
       some { s with futures := [], cands := raisedOf s.ended s.futures, phase := .drained }
     else none
